@@ -130,7 +130,7 @@ def fr(v):
     return Fr(v)
 
 
-def make_history(rng, alg, cfg, nsteps):
+def make_history(rng, alg, cfg, nsteps, transient_failures=False):
     canon = list(alg.canon2bin.values())
     graded = cfg.get('opts', {}).get('graded', False)
     if graded:
@@ -184,6 +184,13 @@ def make_history(rng, alg, cfg, nsteps):
             what = rng.choice(['mixed', 'zero_det', 'zero_div_codegen'] + (['graded_keys'] if graded else []))
             st = {'kind': 'raise', 'what': what, 'keys': [list(kx), list(ky)], 'vals': [vals(kx), vals(ky)]}
         steps.append(st)
+        if transient_failures and not graded and alg.d <= 4 and rng.random() < 0.08:
+            # a first use that fails for a reason that has nothing to do with the operands (warnings turned into errors while the
+            # function is being generated), then the very same call under normal conditions: it must behave as on a fresh algebra
+            mixed = tuple(sorted({0, rng.choice(canon[1:])} | {rng.choice(canon[1:])})) if len(canon) > 2 else tuple(canon)
+            wst = {'kind': 'op', 'op': 'outerexp', 'via': 'method', 'keys': [list(mixed), list(mixed)], 'vals': [vals(mixed), vals(mixed)]}
+            steps.append(dict(wst, warn_as_error=True))
+            steps.append(wst)
         if kind == 'symcall' and rng.random() < 0.6:
             # a sibling call whose symbolic result differs from the previous one only by -1 versus -2 in its coefficients
             # (distinct expressions that are easy to confuse when results are memoised by a digest of the expression)
@@ -206,6 +213,11 @@ def execute(alg, regs, step, snaps=None):
     if snaps is not None:
         snaps.append((x, list(vx)))
         snaps.append((y, list(vy)))
+    import warnings
+    wcm = warnings.catch_warnings()
+    wcm.__enter__()
+    if step.get('warn_as_error'):
+        warnings.simplefilter('error')
     try:
         kind = step['kind']
         if kind == 'op':
@@ -252,6 +264,8 @@ def execute(alg, regs, step, snaps=None):
         return ('ok', mv_dict(r), r)
     except Exception as e:
         return ('exc', type(e).__name__, None)
+    finally:
+        wcm.__exit__(None, None, None)
 
 
 def step_key(cfgname, step):
@@ -339,7 +353,7 @@ def run_sequential(h, ctx, ge):
         return
     alg = instrument(alg)
     regs = regfuncs(alg)
-    steps = make_history(rng, alg, cfg, h['steps'])
+    steps = make_history(rng, alg, cfg, h['steps'], transient_failures=True)
     oracle = Oracle(cfg)
     hid = [name, h['hseed']]
     if not ctx.want(hid) and ctx.only_case is not None and ctx.only_case[:2] != hid:
@@ -355,6 +369,11 @@ def run_sequential(h, ctx, ge):
                 ctx.note_raised(out, 'harness')
             continue
         got = out[:2]
+        if step.get('warn_as_error'):
+            # the warning is emitted while the function is generated, so whether THIS call raises legitimately depends on whether the
+            # pattern was used before; the step exists for what it may leave behind, and is not compared
+            ctx.count('transient_failure_steps_' + ('raised' if out[0] == 'exc' else 'returned'))
+            continue
         if out[0] == 'ok' and out[2] is not None and hasattr(out[2], 'values') and isinstance(out[2].values(), list):
             snaps.append((out[2], list(out[2].values())))
         dl = ge.delta(before)
